@@ -172,7 +172,7 @@ package litefs
 //@   ensures   result.pageSize == 0 && aload(result.pageN) == 0 && dbModeIs(result, DBModeRollback) && posOf(result).TXID == 0 && posOf(result).PostApplyChecksum == 0
 //@   ensures   typeis(aload(result.remoteHaltLock), *HaltLock) && as(aload(result.remoteHaltLock), *HaltLock) == nil
 //@   ensures   typeis(aload(result.haltLockAndGuard), *haltLockAndGuard) && as(aload(result.haltLockAndGuard), *haltLockAndGuard) == nil
-//@   ensures   result.wal.frameOffsets != nil && result.wal.chksums != nil && result.guardSets.m != nil && result.dirtyPageSet != nil
+//@   ensures   result.wal.frameOffsets != nil && result.wal.chksums != nil && result.guardSets.m != nil && result.dirtyPageSet != nil && walKeysPositive(result)
 //@   ensures   store.OS != nil ==> dbWF(result)
 //@   ensures   wfMutex(addr(result.pendingLock)) && wfMutex(addr(result.sharedLock)) && wfMutex(addr(result.reservedLock)) &&
 //@        wfMutex(addr(result.writeLock)) && wfMutex(addr(result.ckptLock)) && wfMutex(addr(result.recoverLock)) &&
@@ -413,7 +413,7 @@ package litefs
 //@   loop 2 invariant sampled && !sought && !readok && !unlocked && exportReadLocks(gs) && dbFile != nil && len(pageData) == int(pageSize)
 //@   loop 2 invariant pageN == 0xffffffff || (pgno >= 1 && pgno - 1 <= pageN && written == int(pgno) - 1)
 //@   ensures   unlocked
-//@   ensures   err == nil ==> sampled && written == int(pageN)
+//@   proves    err == nil ==> sampled && written == int(pageN)
 //@   ensures   posOf(db) == old(posOf(db)) && aload(db.pageN) == old(aload(db.pageN)) && unchanged(db.pageSize, db.wal.frameOffsets)
 //@   ensures   sampled ==> result0 == posOf(db)
 //@   mergeexits
